@@ -15,11 +15,16 @@ package clickhouse_transpiler
 // `and` for && and `or` otherwise over exactly its children, a leaf tests bit
 // number simpleIdx of the per-trace bit set: bitAnd(bits, 1 << simpleIdx) != 0.
 //@ spec fn isLeafTest(r sql.SQLCondition, idx int) bool = typeis(r, "*sql.LogicalOp") && unbox(r, "*sql.LogicalOp").fn == "!=" && len(unbox(r, "*sql.LogicalOp").clauses) == 2 && typeis(unbox(r, "*sql.LogicalOp").clauses[0], "*bitAnd") && typeis(unbox(unbox(r, "*sql.LogicalOp").clauses[0], "*bitAnd").right, "*sql.IntVal") && unbox(unbox(unbox(r, "*sql.LogicalOp").clauses[0], "*bitAnd").right, "*sql.IntVal").val == int64(1) << idx && typeis(unbox(r, "*sql.LogicalOp").clauses[1], "*sql.IntVal") && unbox(unbox(r, "*sql.LogicalOp").clauses[1], "*sql.IntVal").val == 0
+// (the bit set a span is tested against is built from the planner's term list, one
+// condition per term, which an execution never grows - not from the pre-filter list,
+// which the aggregator extends on every execution)
+//@ spec fn bitSetOf(r sql.SQLCondition) []sql.SQLCondition = unbox(unbox(unbox(unbox(r, "*sql.LogicalOp").clauses[0], "*bitAnd").left, "*groupBitOr").left, "*bitSet").terms
 //@ func (*AttrConditionPlanner).getCond [C11,C14]
 //@   modifies a.isAliased
 //@   ensures flag-only-raised: old(a.isAliased) ==> a.isAliased
 //@   ensures inner-node: result1 == nil && c.simpleIdx == -1 ==> typeis(result0, "*sql.LogicalOp") && unbox(result0, "*sql.LogicalOp").fn == (c.op == "&&" ? "and" : "or") && len(unbox(result0, "*sql.LogicalOp").clauses) == len(c.complex)
 //@   ensures leaf: result1 == nil && c.simpleIdx != -1 ==> isLeafTest(result0, c.simpleIdx)
+//@   ensures the-bit-set-is-the-fixed-term-list: result1 == nil && c.simpleIdx != -1 && !old(a.isAliased) ==> bitSetOf(result0) == a.sqlConds
 //@   loop 1:
 //@     invariant old(a.isAliased) ==> a.isAliased
 //@     modifies a.isAliased, elems(subs)
@@ -250,3 +255,10 @@ package clickhouse_transpiler
 //@   ensures le: op == "<=" ==> result1 == nil && result0 == sql.Le
 //@   ensures neq: op == "!=" ==> result1 == nil && result0 == sql.Neq
 //@   ensures other-operators-refused: op != "=" && op != ">" && op != "<" && op != ">=" && op != "<=" && op != "!=" ==> result1 != nil
+
+// "At most limit most recent traces": the traces found by a selector are ranked by their
+// MOST RECENT matching span, newest first - the limit above this select keeps the first
+// rows.
+//@ func (*IndexGroupByPlanner).Process [C11]
+//@   flag checks=-index,-assert
+//@   at sql_select.NewOrderBy$ ranked-by-the-most-recent-matching-span-newest-first: typeis(arg0, "*sql.RawObject") && unbox(arg0, "*sql.RawObject").val == "max(" + i.Prefix + "index_search.timestamp_ns)" && arg1 == sql.ORDER_BY_DIRECTION_DESC
